@@ -22,6 +22,7 @@ import (
 
 	"github.com/containerd/nri/pkg/adaptation"
 	"github.com/containerd/nri/pkg/api"
+	"github.com/containerd/nri/pkg/stub"
 )
 
 const c09Small = 64 << 10 // objects up to this size are "individually transmissible" without question
@@ -331,6 +332,68 @@ func runC09Case(dir string, cs *c09Case, tag string, res *ev.Result) {
 	res.Count("clean_failures_large_objects", 1)
 }
 
+// noSyncPlugin implements one event handler and nothing else: no Synchronize, no Configure.
+type noSyncPlugin struct{ events atomic.Int32 }
+
+func (p *noSyncPlugin) RunPodSandbox(context.Context, *api.PodSandbox) error {
+	p.events.Add(1)
+	return nil
+}
+
+// c09NoHandler: a plugin that has no Synchronize handler registers against a state that must be split: it has
+// nothing to receive, but registration must complete and the plugin be active.
+func c09NoHandler(dir string, res *ev.Result, tag string, cs *c09Case) {
+	what := map[string]any{"scenario": "plugin without a Synchronize handler", "state": cs}
+	rt, err := rig.NewRuntime(dir)
+	if err != nil {
+		res.Note("runtime: %v", err)
+		return
+	}
+	rt.SetState(c09State(cs, tag))
+	done := make(chan error, 4)
+	rt.SyncDone = func(_ []*api.ContainerUpdate, err error) { done <- err }
+	if err := rt.Start(); err != nil {
+		res.Note("start: %v", err)
+		return
+	}
+	defer rt.Stop()
+	for len(done) > 0 {
+		<-done
+	}
+	p := &noSyncPlugin{}
+	st, err := stub.New(p, stub.WithPluginName("nosync"), stub.WithPluginIdx("10"), stub.WithSocketPath(rt.Sock), stub.WithOnClose(func() {}))
+	if err != nil {
+		res.Note("stub: %v", err)
+		return
+	}
+	if err := st.Start(context.Background()); err != nil {
+		res.Note("%s: start: %v", tag, err)
+		res.Inconcl()
+		return
+	}
+	defer st.Stop()
+	select {
+	case err := <-done:
+		if err != nil {
+			res.Violate("C09/failed-small-state", fmt.Sprintf("a plugin without a Synchronize handler could not be synchronized with a state of %d bytes in objects of at most %d bytes: %v", cs.Total, cs.MaxO, err), what)
+			return
+		}
+	case <-time.After(100 * time.Second):
+		res.Violate("C09/hang", "synchronization neither completed nor failed within 100 s; goroutines:\n"+nriStacks(), what)
+		return
+	}
+	for i := 0; i < 3 && p.events.Load() == 0; i++ {
+		b := rt.A.BlockPluginSync()
+		rt.A.RunPodSandbox(context.Background(), &api.StateChangeEvent{Pod: &api.PodSandbox{Id: fmt.Sprintf("%s-probe%d", tag, i)}})
+		b.Unblock()
+		time.Sleep(5 * time.Millisecond)
+	}
+	if p.events.Load() == 0 {
+		res.Violate("C09/not-activated", "synchronization succeeded but the plugin (no Synchronize handler) does not receive events afterwards", what)
+	}
+	res.Seen(fmt.Sprintf("no-handler|split%v", cs.Total > 4<<20))
+}
+
 // c09Preinstalled: plugins launched by the runtime itself are synchronized during Start, one after the
 // other, with a state that has to be split; each must receive the complete state and the updates of
 // every one of them must reach the runtime.
@@ -430,6 +493,16 @@ func runC09(c *ev.ChildEnv, res *ev.Result) {
 	rig.QuietLogs()
 	adaptation.SetPluginRequestTimeout(30 * time.Second)
 	adaptation.SetPluginRegistrationTimeout(30 * time.Second)
+	if c.Batch%3 == 1 {
+		for i, cs := range []*c09Case{{Name: "no-handler-split", Pods: rep(3, 200), Ctrs: rep(150, 60<<10)}, {Name: "no-handler-small", Pods: rep(3, 200), Ctrs: rep(4, 100)}} {
+			cs.finish()
+			c.WAL("no-handler %d", i)
+			res.Eval()
+			d := fmt.Sprintf("%s/nh%d", c.Dir, i)
+			mkdirAll(d)
+			c09NoHandler(d, res, fmt.Sprintf("nh%d", i), cs)
+		}
+	}
 	if c.Batch%3 == 0 {
 		big := &c09Case{Name: "preinstalled-split", Pods: rep(3, 200), Ctrs: rep(100, 60<<10)}
 		big.finish()
